@@ -64,14 +64,17 @@ const (
 )
 
 type Line struct {
-	ID   string   `json:"id"`
-	Text string   `json:"text"`
-	Kind string   `json:"kind"`
-	Why  string   `json:"why,omitempty"` // mutation / maybe / restriction kind
-	Alts []Alt    `json:"alts,omitempty"`
-	TS   int64    `json:"ts"`              // expected time in ns
-	NoTS bool     `json:"no_ts,omitempty"` // server assigns the time
-	Cats []string `json:"cats,omitempty"`
+	ID   string `json:"id"`
+	Text string `json:"text"`
+	Kind string `json:"kind"`
+	Why  string `json:"why,omitempty"` // mutation / maybe / restriction kind
+	Alts []Alt  `json:"alts,omitempty"`
+	TS   int64  `json:"ts"`              // expected time in ns
+	NoTS bool   `json:"no_ts,omitempty"` // server assigns the time
+	// NoTags: the line has no tag at all; it is identified by its own measurement (whose
+	// name contains the ID) and must be stored as the only, tagless series of it
+	NoTags bool     `json:"no_tags,omitempty"`
+	Cats   []string `json:"cats,omitempty"`
 }
 
 type Batch struct {
@@ -81,6 +84,9 @@ type Batch struct {
 	Meas      string `json:"meas"` // the batch's shared measurement
 	Lines     []Line `json:"lines"`
 	Body      string `json:"body"` // request body (lines plus comments / blank lines)
+	// Before: a request that is sent immediately before this one, alone and on the same
+	// connection (the server re-uses the parse buffers of the previous request)
+	Before *Batch `json:"before,omitempty"`
 	// filled at run time
 	Status   int    `json:"status,omitempty"`
 	RespBody string `json:"resp_body,omitempty"`
@@ -960,4 +966,69 @@ func (g *gen) restrictedLine() Line {
 		ln.Cats = append(ln.Cats, "restricted:"+o.restricted)
 		return ln
 	}
+}
+
+// ---- lines without tags, and the invalid lines placed in front of them
+
+// untaggedLine: a valid line without any tag, alone in a measurement of its own.
+// nFields 1..4 distinct fields.
+func (g *gen) untaggedLine(nFields int, placement string) Line {
+	r := g.r
+	ln := Line{ID: g.newID(), Kind: kValid, Why: "untagged", NoTags: true}
+	meas := "c06nt" + ln.ID
+	fields := map[string]Val{}
+	var parts []string
+	order := []string{"fi", "ff", "fb", "fs"}
+	r.Shuffle(len(order), func(i, j int) { order[i], order[j] = order[j], order[i] })
+	for _, k := range order[:nFields] {
+		switch k {
+		case "fi":
+			v := r.Int64N(1 << 40)
+			fields[k] = Val{T: "i", I: v}
+			parts = append(parts, k+"="+strconv.FormatInt(v, 10)+"i")
+		case "ff":
+			bits, lex := g.floatVal("integral")
+			fields[k] = Val{T: "f", F: bits}
+			parts = append(parts, k+"="+lex)
+		case "fb":
+			b := r.IntN(2) == 0
+			fields[k] = Val{T: "b", B: b}
+			parts = append(parts, k+"="+strconv.FormatBool(b))
+		default:
+			v := g.plain(1, 8)
+			fields[k] = Val{T: "s", S: v}
+			parts = append(parts, k+`="`+v+`"`)
+		}
+	}
+	tsClass := []string{"recent", "small", "none", "recent"}[g.next("ts-untagged", 4)]
+	tsText, ns, noTS := g.timestamp(tsClass)
+	ln.TS, ln.NoTS = ns, noTS
+	ln.Text = meas + " " + strings.Join(parts, ",")
+	if !noTS {
+		ln.Text += " " + tsText
+	}
+	ln.Alts = []Alt{{Meas: meas, Tags: map[string]string{}, Fields: fields}}
+	ln.Cats = []string{"tags:none", "untagged:" + placement, "ts:" + tsClass, "precision:" + precName(g.prec), fmt.Sprintf("untagged-fields:%d", nFields)}
+	return ln
+}
+
+// invalidTaggedLine: an invalid line whose measurement and tag section are well formed
+// (several tags) and whose defect sits in a field value or in the timestamp, i.e. after
+// the point where a parser has already taken the tags. withFields: the field section is
+// well formed and has four fields, only the timestamp is bad.
+func (g *gen) invalidTaggedLine(withFields bool) Line {
+	kind := "tagged:bad-field-value"
+	if withFields {
+		kind = "tagged:bad-timestamp"
+	}
+	ln := Line{ID: g.newID(), Kind: kInvalid, Why: kind}
+	head := g.meas + ",host=" + g.plain(2, 5) + ",u=" + ln.ID + ",dc=" + g.plain(2, 5)
+	ts := strconv.FormatInt((recentBase*1e9+g.r.Int64N(400000*1e9))/precMult(g.prec), 10)
+	if withFields {
+		ln.Text = head + ` fi=7i,ff=2.5,fb=true,fs="stale" ` + []string{"12a4", "1.5", "2021-06-05T00:00:00Z", "--5"}[g.next("tagged-ts", 4)]
+	} else {
+		ln.Text = head + " " + []string{"ff=abc", "ff=1.2.3", "fi=12u", "fi=1.5i", "fb=tru", `fs="abc`, "ff="}[g.next("tagged-fv", 7)] + " " + ts
+	}
+	ln.Cats = []string{"invalid:" + kind}
+	return ln
 }
